@@ -238,3 +238,4 @@ package stubs
 //@ axiom all[int](n, len(decimalOf(n)) >= 1 && len(decimalOf(n)) <= 20)
 //@ extern strconv.FormatUint
 //@   ensures base == 10 ==> result == decimalOf(int(i))
+
